@@ -288,6 +288,12 @@ def rule_bp2b(prog, results):
                     if not (isinstance(u, App) and u.op == 'binop' and
                             any(x == loop.var for x in walk(u))):
                         folded = False
+            early = None
+            if isinstance(v, Sym) and v.meta and v.meta[0] == 'loopvar' and \
+                    getattr(v.meta[1], 'breaks', None):
+                # the fold loop is left early on some condition: the
+                # remaining operands are never parsed, hence never checked
+                early = v.meta[1].breaks[0]
             want_init = (ops[0] == 'And')
             init_ok = False
             init_known = False
@@ -308,6 +314,25 @@ def rule_bp2b(prog, results):
             r.inst(function=qn.split('.')[-1], operator=ops[0],
                    folds_all_operands=folded, neutral_start=init_ok,
                    fixed_operand_indices=idx)
+            if early is not None:
+                r.inst(function=qn.split('.')[-1], operator=ops[0],
+                       left_early_when=[('' if pol else 'not ') + repr(c)[:80]
+                                        for (c, pol) in early])
+                r.fail(Finding(
+                    PROP, 'R-BP-2b',
+                    '%s:1' % qn.rsplit('.', 1)[0].replace('.', '/'),
+                    qn.replace('pyModelChecking.', ''),
+                    'nary-early-exit:%s' % ops[0],
+                    'the loop that folds the operands of `x %s y %s z ...` '
+                    'is left early (when %s): the remaining operands are '
+                    'not parsed, so a variable missing from the ordering or '
+                    'non-Boolean syntax in them is accepted, and the keyword '
+                    'spelling is no synonym of the chained binary operator' %
+                    (ops[0].lower(), ops[0].lower(),
+                     [('' if pol else 'not ') + repr(c)[:60]
+                      for (c, pol) in early]),
+                    expected='every operand of node.values is parsed'))
+                continue
             if folded and init_ok:
                 r.ok()
             elif not idx and not partial and not (folded and init_known):
@@ -959,5 +984,17 @@ def run(prog, tier, seed):
     from ..report import adopt
     dep = adopt(T.results(T(c17.rule_bdd5, prog)), PROP,
                 'the ordering both notations are built under')
+    # the two notations give the *same* OBDD only if node construction finds
+    # the node that already exists and terminals accept 0 / 1 only
+    from . import c16
+
+    def _hashcons(prog):
+        r1_, r2_, lookup, reg = c16.rule_hc12(prog)
+        out = [r1_, r2_]
+        if lookup is not None:
+            out.append(c16.rule_hc3(prog, lookup, reg))
+        return out
+    dep = dep + adopt(T.results(T(_hashcons, prog)), PROP,
+                      'one node per (variable, low, high)')
     return T.results(r1, r2, r2b, r3, r4, r5, r6) + dep, expl, \
         assumptions, T.extra()
